@@ -477,8 +477,16 @@ func init() {
 		ex.callValue(fr, args[1], nil, nil)
 		return nil
 	})
+	// sync.Pool: an object that was Put may be handed out again (LIFO), which is
+	// what the real pool does on one P; otherwise New. Both are legal behaviours
+	// of a pool; reuse is the one that exposes missing copies.
 	reg("(*sync.Pool).Get", func(ex *Exec, fr *frame, fn *ssa.Function, args []Value) Value {
 		p := args[0].(*Value)
+		key := fmt.Sprintf("pool:%p", p)
+		if items, _ := ex.pathState[key].([]Value); len(items) > 0 {
+			ex.pathState[key] = items[:len(items)-1]
+			return items[len(items)-1]
+		}
 		s := (*p).(Struct)
 		// last field is New func() any
 		newf := s[len(s)-1]
@@ -487,7 +495,16 @@ func init() {
 		}
 		return Iface{}
 	})
-	reg("(*sync.Pool).Put", nop)
+	reg("(*sync.Pool).Put", func(ex *Exec, fr *frame, fn *ssa.Function, args []Value) Value {
+		p := args[0].(*Value)
+		if iv, ok := args[1].(Iface); ok && iv.t == nil {
+			return nil
+		}
+		key := fmt.Sprintf("pool:%p", p)
+		items, _ := ex.pathState[key].([]Value)
+		ex.pathState[key] = append(append([]Value{}, items...), args[1])
+		return nil
+	})
 	reg("(*sync.WaitGroup).Add", nop)
 	reg("(*sync.WaitGroup).Done", nop)
 	reg("(*sync.WaitGroup).Wait", nop)
